@@ -20,85 +20,67 @@ SPEC_FUNCS = {
 }
 
 
-def make_atom(a, apply_f, skip_f):
-    def which(expr):
-        o = a.origins(expr)
-        names = {x[1] for x in o if x[0] != "#param"}
-        if apply_f in names and skip_f not in names:
-            return "apply"
-        if skip_f in names and apply_f not in names:
-            return "skip"
-        return None
-
-    def closure_shape(c):
-        """'match' if the closure returns f.matches(..), 'notmatch' for !f.matches(..), else None."""
-        b = c["body"]["body"]
-        while b.get("k") == "Block" and not b["stmts"] and "tail" in b:
-            b = b["tail"]
-        neg = False
-        if b.get("k") == "Unary" and b.get("op") == "Not":
-            neg = True
-            b = b["e"]
-        if b.get("k") == "Call" and b.get("fname") == "matches":
-            return "notmatch" if neg else "match"
-        return None
-
-    def atom(e):
-        if e.get("k") != "Call":
-            return None
-        fname = e.get("fname")
-        if fname == "is_empty" and e["args"]:
-            w = which(e["args"][0])
-            return ("empty", w) if w else None
-        if fname in ("any", "all") and len(e["args"]) == 2 and e["args"][1].get("k") == "Closure":
-            w = which(e["args"][0])
-            sh = closure_shape(e["args"][1])
-            if not w or not sh:
-                return None
-            if fname == "any" and sh == "match":
-                return ("anymatch", w)
-            if fname == "all" and sh == "notmatch":
-                return ("not", ("anymatch", w))
-            return ("unsupported", fname, sh, w)
-        return None
-
-    return atom
+FILTER = "utils::filter_pattern::FilterPattern"
 
 
 def table(R, ctx):
+    """Decision table of both filter predicates by finite-domain evaluation (sa/peval.py)."""
+    import itertools
+    from .. import peval
+    from ..peval import Struct, UNKNOWN
     rid = "C20.table"
     lib = ctx.lib
-    R.rule(rid, "decision table of the filter predicate: for each state of the apply list (empty / none matches / some matches) and of the "
-                "skip list, every path of the function returns (apply empty or matched) and not (skip matched)")
-    tables = {}
-    for path, (af, sf) in SPEC_FUNCS.items():
+    R.rule(rid, "decision table of the two filter predicates (Configuration::should_apply_rule, RuleMetadata::should_apply), extracted by "
+                "evaluating their typed tree on every apply/skip list state built from a matching pattern `m` and a non-matching pattern `n` "
+                "(lists of length 0..2 in both orders: 7 x 7 states): the answer is (apply list empty OR some apply pattern matches) AND no "
+                "skip pattern matches. Which of the two Vec<FilterPattern> fields is the apply list is inferred (exactly one assignment must "
+                "satisfy the table), so renaming fields or restructuring the predicate is no alarm")
+    states = [[]] + [[x] for x in "mn"] + [list(t) for t in itertools.product("mn", repeat=2)]
+
+    def pat(x):
+        return Struct("#FilterPattern", {"matches": x == "m"})
+
+    def hook(pe, path, fname, args, node):
+        if args and isinstance(args[0], Struct) and args[0].adt == "#FilterPattern":
+            if fname == "matches" and len(args) == 2:
+                return args[0].fields["matches"]
+            return UNKNOWN
+        return NotImplemented
+    results = {}
+    for path in SPEC_FUNCS:
         fn = lib.fn(path)
         if not R.require(rid, "anchor:" + path, fn is not None, "", "not found"):
             continue
-        a = ctx.an.fa(fn["path"])
-        atom = make_atom(a, af, sf)
-        tbl = {}
-        for ast in ("empty", "nomatch", "match"):
-            for sst in ("empty", "nomatch", "match"):
-                fixed = {("empty", "apply"): ast == "empty", ("anymatch", "apply"): ast == "match",
-                         ("empty", "skip"): sst == "empty", ("anymatch", "skip"): sst == "match"}
-                it = absint.Interp(atom, lambda c: None, fixed)
-                try:
-                    paths = it.run(thir.body_of(fn))
-                except RuntimeError:
-                    paths = []
-                rets = {p.ret for p in paths}
-                unsupported = [k for p in paths for k in p.assign if isinstance(k, tuple) and k and k[0] == "unsupported"]
-                want = (ast in ("empty", "match")) and sst != "match"
-                ok = bool(paths) and rets == {want} and not unsupported
-                tbl[(ast, sst)] = sorted(rets, key=str)
-                R.ob(rid, "%s|apply=%s,skip=%s" % (path.split("::")[-1], ast, sst), ok, ctx.where(fn),
-                     "returns %s, expected %s%s" % (sorted(rets, key=str), want, " (unrecognised predicate shape %s)" % unsupported if unsupported else ""))
-        tables[path] = tbl
-    if len(tables) == 2:
-        t1, t2 = list(tables.values())
-        R.ob("C20.table", "siblings-agree", t1 == t2, "", "global and per-rule predicates have %s decision tables" % ("identical" if t1 == t2 else "DIFFERENT"))
-    R.sample({"decision_table": {"%s/%s" % k: v for k, v in list(tables.values())[0].items()} if tables else {}})
+        owner = fn.get("self_tys", "").split("<")[0]
+        adt = lib.adts.get(owner)
+        flds = [f["name"] for v in (adt["variants"] if adt else []) for f in v["fields"] if FILTER in f.get("tys", "") and "Vec" in f.get("tys", "")]
+        if not R.require(rid, "anchor:filter-fields:" + path.split("::")[-1], len(flds) == 2, ctx.where(fn), "Vec<FilterPattern> fields of %s: %s" % (owner, flds)):
+            continue
+        verdicts = {}
+        for apply_f, skip_f in (flds, flds[::-1]):
+            wrong = []
+            for A in states:
+                for S in states:
+                    pe = peval.PEval(lib, ctx.an, hook)
+                    selfv = Struct(owner, {apply_f: [pat(x) for x in A], skip_f: [pat(x) for x in S]})
+                    try:
+                        v = pe.call_fn(fn, [selfv, Struct("#Path", {})])
+                    except peval.OutOfFuel:
+                        v = UNKNOWN
+                    want = (not A or "m" in A) and "m" not in S
+                    if v is not want:
+                        wrong.append(("apply=[%s] skip=[%s]" % (",".join(A), ",".join(S)), want, v, pe.unknown_reasons[:1]))
+            verdicts[(apply_f, skip_f)] = wrong
+        best = min(verdicts.items(), key=lambda kv: len(kv[1]))
+        (apply_f, skip_f), wrong = best
+        results[path] = (apply_f, skip_f, wrong)
+        short = path.split("::")[-1]
+        R.ob(rid, "%s|table" % short, not wrong, ctx.where(fn),
+             "all %d list states decided as documented (apply list = `%s`, skip list = `%s`)" % (len(states) ** 2, apply_f, skip_f) if not wrong else
+             "%d of %d states differ from the documented decision, e.g. %s: expected %s, got %s %s" % (len(wrong), len(states) ** 2, wrong[0][0], wrong[0][1], wrong[0][2], wrong[0][3] or ""))
+        both = [k for k, w in verdicts.items() if not w]
+        R.ob(rid, "%s|roles-unambiguous" % short, len(both) <= 1, ctx.where(fn), "exactly one role assignment of the two lists satisfies the table", nontrivial=False)
+    R.sample({"decision_table": {k.split("::")[-1]: {"apply": v[0], "skip": v[1], "wrong_states": len(v[2])} for k, v in results.items()}})
 
 
 def dominate(R, ctx):
